@@ -213,7 +213,7 @@ fn c07b_bcj_writer_split_arm() {
 
 // C11-D / C07-C: BCJReader over a stream produced by the encoder kernel returns the original bytes, for any split of
 // the destination buffer into two read calls.
-//@ {"name":"c11d_bcj_reader_roundtrip_split_arm","props":["C11","C07","C02"],"obligation":"C11-D","timeout":2400,"mem_gb":13,"functions":["filter::bcj::BCJReader::read","filter::bcj::BCJFilter::arm_code"],"bounds":"ARM filter, start offset any 4-aligned u32; 8 arbitrary bytes; destination cut at k in 0..=8 (two read calls, then reads until Ok(0)); unwind 14","assumes":[]}
+//@ {"name":"c11d_bcj_reader_roundtrip_split_arm","props":["C11","C07","C02"],"tier":"thorough","obligation":"C11-D","timeout":3600,"mem_gb":13,"functions":["filter::bcj::BCJReader::read","filter::bcj::BCJFilter::arm_code"],"bounds":"ARM filter, start offset any 4-aligned u32; 8 arbitrary bytes; destination cut at k in 0..=8 (two read calls, then reads until Ok(0)); unwind 14","assumes":[]}
 #[kani::proof]
 #[kani::unwind(14)]
 fn c11d_bcj_reader_roundtrip_split_arm() {
